@@ -3,6 +3,7 @@ package props
 import (
 	"context"
 	"fmt"
+	"github.com/ajitpratap0/GoSQLX/pkg/sql/token"
 	"math/rand"
 	"runtime"
 	"runtime/debug"
@@ -57,9 +58,9 @@ type h8Cfg struct {
 }
 
 type h8State struct {
-	tk  *tokenizer.Tokenizer
-	p   *parser.Parser
-	cfg h8Cfg
+	tk               *tokenizer.Tokenizer
+	p                *parser.Parser
+	cfg              h8Cfg
 	reusedP, reusedT int
 }
 
@@ -168,6 +169,7 @@ var h8Probes = []h8Probe{
 	{"tokens-strings", "SELECT 'alice', 'b''c', 'tab\\there', $$dollar$$, \"quoted id\" FROM t WHERE x = 'y'", "tokens"},
 	{"tokens-keywords", "SELECT zerofill, unsigned, ilike, returning FROM straight_join", "tokens"},
 	{"recovery", "SELECT 1; SELECT FROM; SELECT 2", "recovery"},
+	{"recovery-plain-tokens", "SELECT a FROM t WHERE ] ; SELECT 2", "recovery-tokens"},
 }
 
 // h8Outcome runs one probe on (tk, p) and digests everything observable.
@@ -181,6 +183,20 @@ func h8Outcome(tk *tokenizer.Tokenizer, p *parser.Parser, pr h8Probe) map[string
 	out["tokens"] = dump.Dump(toks)
 	out["comments"] = dump.Dump(tk.Comments)
 	if pr.Mode == "tokens" {
+		return out
+	}
+	if pr.Mode == "recovery-tokens" {
+		// the plain-token recovery entry point: no position table belongs to this stream
+		id := func(s string) token.Token { return token.Token{Type: models.TokenTypeIdentifier, Literal: s} }
+		plain := []token.Token{{Type: models.TokenTypeSelect, Literal: "SELECT"}, id("a"), {Type: models.TokenTypeFrom, Literal: "FROM"}, id("t"), {Type: models.TokenTypeWhere, Literal: "WHERE"},
+			{Type: models.TokenTypeRBracket, Literal: "]"}, {Type: models.TokenTypeSemicolon, Literal: ";"}, {Type: models.TokenTypeSelect, Literal: "SELECT"}, {Type: models.TokenTypeNumber, Literal: "2"}, {Type: models.TokenTypeEOF}}
+		stmts, errs := p.ParseWithRecovery(plain)
+		out["tree"] = dump.Dump(stmts)
+		var es []string
+		for _, e := range errs {
+			es = append(es, fmt.Sprintf("%+v / %s", shapeOf(e), firstLine(e.Error())))
+		}
+		out["error"] = strings.Join(es, " | ")
 		return out
 	}
 	if pr.Mode == "recovery" {
